@@ -56,10 +56,90 @@ fn digit(d: u32, lower: bool) -> u8 {
     }
 }
 
+/// Exact rounding midpoints (so that the moderate path cannot decide and the big-integer slow path runs):
+/// (2m+1) * 2^s for integers, (2m+1) * 5^k / 10^k for fractions (decimal); the digits of 2m+1 followed by a
+/// shift for power-of-two radices. Optionally followed by zeros and a final non-zero digit, or cut short.
+fn halfway_text(r: &mut Rng, radix: u32, point: u8, ec: u8) -> Vec<u8> {
+    let bits = if r.below(3) == 0 { 24 } else { 53 };
+    let m: u128 = (1u128 << (bits - 1)) | (r.next() as u128 & ((1u128 << (bits - 1)) - 1));
+    let odd = 2 * m + 1;
+    let mut t = Vec::new();
+    if r.below(4) == 0 {
+        t.push(b'-');
+    }
+    let to_digits = |mut v: u128, radix: u32| -> Vec<u8> {
+        let mut d = Vec::new();
+        loop {
+            d.push(digit((v % radix as u128) as u32, false));
+            v /= radix as u128;
+            if v == 0 {
+                break;
+            }
+        }
+        d.reverse();
+        d
+    };
+    if radix == 10 {
+        if r.below(2) == 0 {
+            let s = r.below(60) as u32;
+            t.extend(to_digits(odd << s, 10));
+        } else {
+            let k = 1 + r.below(27) as u32;
+            let ds = to_digits(odd * 5u128.pow(k), 10);
+            if ds.len() as u32 > k {
+                let cut = ds.len() - k as usize;
+                t.extend_from_slice(&ds[..cut]);
+                t.push(point);
+                t.extend_from_slice(&ds[cut..]);
+            } else {
+                t.push(b'0');
+                t.push(point);
+                t.extend(std::iter::repeat(b'0').take(k as usize - ds.len()));
+                t.extend(ds);
+            }
+        }
+        if !t.contains(&point) {
+            t.push(point);
+        }
+    } else {
+        t.extend(to_digits(odd, radix));
+        t.push(point);
+    }
+    match r.below(4) {
+        0 => {},
+        1 => {
+            let z = r.below(800) as usize;
+            t.extend(std::iter::repeat(b'0').take(z));
+            t.push(b'1');
+        },
+        2 => {
+            t.pop();
+        },
+        _ => {
+            let z = r.below(40) as usize;
+            t.extend(std::iter::repeat(b'0').take(z));
+        },
+    }
+    if r.below(2) == 0 {
+        t.push(ec);
+        if r.below(2) == 0 {
+            t.push(b'-');
+        }
+        t.push(digit(r.below(radix.min(10) as u64) as u32, false));
+        if r.below(3) == 0 {
+            t.push(digit(r.below(radix.min(10) as u64) as u32, false));
+        }
+    }
+    t
+}
+
 /// number text over the radix with optional separators / prefix / junk, or raw bytes
 fn gen_text(r: &mut Rng, radix: u32, sep: u8, point: u8, ec: u8) -> Vec<u8> {
     let mut t = Vec::new();
     let shape = r.below(10);
+    if shape >= 7 && (radix == 10 || radix.is_power_of_two()) {
+        return halfway_text(r, radix, point, ec);
+    }
     if shape == 0 {
         let n = r.below(24) as usize;
         for _ in 0..n {
